@@ -119,7 +119,8 @@ class Spec:
 class Contract:
     def __init__(self, target, requires=(), ensures=(), modifies=(), types=None, returns=None, inline=False,
                  loop_invariants=None, raises=(), allocates=False, assumed=False, hints=(), ghost_updates=(),
-                 props=(), decreases=None, pure=False, note="", cases=None):
+                 props=(), decreases=None, pure=False, note="", cases=None, call_assumes=None, at_call=None,
+                 expect_calls=None):
         self.target = target
         self.requires = [self._lab(x, "pre", k) for k, x in enumerate(requires)]
         self.ensures = [self._lab(x, "post", k) for k, x in enumerate(ensures)]
@@ -135,6 +136,9 @@ class Contract:
         self.props = list(props)
         self.pure = pure
         self.note = note
+        self.call_assumes = call_assumes or {}    # callee -> clauses ASSUMED (not proved) just before that call; listed as assumptions
+        self.at_call = at_call or {}              # callee -> clauses PROVED just before that call (old = function entry)
+        self.expect_calls = expect_calls or {}    # callee method name -> exact number of calls on every normally returning path
         self.when = None
         self.case_name = None
         self.cases = []
@@ -147,7 +151,8 @@ class Contract:
         c = Contract(self.target, requires=[], ensures=[], modifies=list(self.modifies) + list(cs.get("modifies", [])),
                      types=self.types, returns=self.returns, loop_invariants=self.loop_invariants,
                      raises=self.raises + list(cs.get("raises", [])), allocates=self.allocates or cs.get("allocates", False),
-                     assumed=self.assumed, props=self.props)
+                     assumed=self.assumed, props=self.props, call_assumes=self.call_assumes,
+                     at_call={**self.at_call, **cs.get("at_call", {})}, expect_calls={**self.expect_calls, **cs.get("expect_calls", {})})
         c.requires = list(self.requires) + [self._lab(x, "pre-" + cs["name"], k) for k, x in enumerate(cs.get("requires", []))]
         c.ensures = list(self.ensures) + [self._lab(x, "post-" + cs["name"], k) for k, x in enumerate(cs.get("ensures", []))]
         c.when = cs["when"]
@@ -193,6 +198,7 @@ class Executor:
         self.loop_index = {}
         self.entry_old = None
         self.entry_alive = None
+        self.contract_stack = []
         self.comp_info = {}
         self.literal_seqs = {}
 
@@ -356,6 +362,8 @@ class Executor:
             return smt.is_number(term)
         if k == "real":
             return z3.Or(Val.is_realv(term), Val.is_intv(term))
+        if k == "fnum":      # a float-world number: finite (bool / int / float) or +inf
+            return z3.Or(smt.isfin(term), Val.is_pinf(term))
         if k == "intinf":
             return z3.Or(Val.is_intv(term), Val.is_pinf(term))
         if k == "fn":
@@ -576,10 +584,13 @@ class Executor:
             return smt.inti(sv.t)
         raise Unsupported("as_int on " + sv.k, node)
 
-    def named_seq(self, st, ref_t):
+    def named_seq(self, st, ref_t, hint=None):
         """Seq held by list object ref_t in the current heap, as a named constant (per path)"""
         heap = self.heap_get(st, "$seq")
         if self.quant_facts is not None and self.mentions_bound(ref_t):
+            if hint is not None and hint.kind == "list" and hint.name not in ("Any", "Local"):
+                self.typed_heap_fact(st, hint.name)
+                return self.named_heap(st, "$seq")[ref_t]
             return heap[ref_t]
         key = (heap.get_id(), ref_t.get_id())
         names = st.known.setdefault("$names", {})
@@ -587,9 +598,33 @@ class Executor:
             c = fresh("sq", Seq)
             st.pc.append(c == heap[ref_t])
             names[key] = c
-        return names[key]
+            # every member sits at its first position (witness, scoped to this sequence)
+            x = z3.Const(f"x!{next(_uid)}", Val)
+            st.pc.append(smt.forall([x], z3.Implies(Contains(c, x), At(c, IndexOf(c, x)) == x), [Contains(c, x)]))
+        c = names[key]
+        # element typing of a list of a declared kind, available from membership as well as from position
+        ety = None
+        if hint is not None and hint.kind == "list":
+            e = self.S.kinds.get(hint.name)
+            ety = e if isinstance(e, Ty) else (hint.args[0] if (hint.name == "Local" and hint.args) else None)
+        tkey = ("typed", c.get_id())
+        if ety is not None and ety.kind != "val" and tkey not in names:
+            names[tkey] = True
+            x = z3.Const(f"x!{next(_uid)}", Val)
+            k = z3.Int(f"k!{next(_uid)}")
+            try:
+                tp = lambda t: z3.simplify(self.type_pred(ety, t, st, "val"))
+                st.pc.append(smt.forall([x], z3.Implies(Contains(c, x), tp(x)), [Contains(c, x)]))
+                st.pc.append(smt.forall([k], z3.Implies(z3.And(0 <= k, k < Len(c)), tp(At(c, k))), [At(c, k)]))
+            except Unsupported:
+                pass
+        return c
 
     bound_vars = ()
+
+    def unit_env_view(self, st):
+        """locals of the unit function visible in checkpoint clauses"""
+        return dict(st.env)
 
     def mentions_bound(self, t):
         if not self.bound_vars:
@@ -607,17 +642,42 @@ class Executor:
             stack.extend(x.children())
         return False
 
+    def typed_heap_fact(self, st, kind):
+        """element typing of EVERY list of a declared kind in the current heap (needed when a contract
+        quantifies over lists, e.g. over the priority lines of a node)"""
+        e = self.S.kinds.get(kind)
+        if not isinstance(e, Ty) or e.kind == "val":
+            return
+        H = self.named_heap(st, "$seq")
+        names = st.known.setdefault("$names", {})
+        key = ("typedheap", H.get_id(), kind)
+        if key in names:
+            return
+        names[key] = True
+        l = z3.Int(f"l!{next(_uid)}")
+        x = z3.Const(f"x!{next(_uid)}", Val)
+        k = z3.Int(f"k!{next(_uid)}")
+        try:
+            tx = z3.simplify(self.type_pred(e, x, st, "val"))
+            st.pc.append(smt.forall([l, x], z3.Implies(z3.And(role_of(l) == self.rid(kind), Contains(H[l], x)), tx),
+                                    [Contains(H[l], x)]))
+            tk = z3.simplify(self.type_pred(e, At(H[l], k), st, "val"))
+            st.pc.append(smt.forall([l, k], z3.Implies(z3.And(role_of(l) == self.rid(kind), 0 <= k, k < Len(H[l])), tk),
+                                    [At(H[l], k)]))
+        except Unsupported:
+            pass
+
     def seq_of(self, sv, st, node=None):
         """abstract Seq of a list-like SV"""
         if sv.k == "seq":
             return sv.t
         if sv.k == "ref":
-            return self.named_seq(st, sv.t)
+            return self.named_seq(st, sv.t, sv.h)
         if sv.k == "val":
             if sv.h is not None and sv.h.kind == "tupv":
                 return Val.ts(sv.t)
             r = self.as_ref(sv, st, node, "list")
-            return self.named_seq(st, r.t)
+            return self.named_seq(st, r.t, r.h)
         raise Unsupported("seq_of " + sv.k, node)
 
     def elem_ty(self, sv):
@@ -1073,6 +1133,7 @@ class Executor:
                       smt.forall([k], z3.Implies(z3.And(0 <= k, k < Len(A)), smt.py_eq(At(A, k), c)), patterns=[At(A, k)]))
 
     def contains(self, container, x, st, node):
+        container = self.unwrap_opt(container, st, node, "container")
         if container.k == "ref" and container.h is not None and container.h.kind == "dict":
             dh = self.heap_get(st, "$dh")
             return dh[container.t][self.to_val(x)]
@@ -1170,7 +1231,19 @@ class Executor:
             out.append((s, self.subscript(s, vals[0], vals[1], e)))
         return out
 
+    def unwrap_opt(self, sv, st, node, what="value"):
+        """an Optional[object] value used where an object is needed: view it as the object
+        (with the definedness obligation that it is one)"""
+        if sv.k == "val" and sv.h is not None and sv.h.kind in ("opt", "orfalse"):
+            inner = sv.h
+            while inner.kind in ("opt", "orfalse"):
+                inner = inner.args[0]
+            if inner.sort() == "ref":
+                return self.as_ref(sv, st, node, what)
+        return sv
+
     def subscript(self, st, base, idx, node):
+        base = self.unwrap_opt(base, st, node, "subscripted")
         if base.k == "val" and base.h is not None and base.h.kind == "tup2" or (
                 base.k == "val" and base.h is None and idx.k == "int" and z3.is_int_value(idx.t) and False):
             if not (idx.k == "int" and z3.is_int_value(z3.simplify(idx.t))):
@@ -1299,6 +1372,7 @@ class Executor:
 
     def iter_seq(self, it, st, node):
         """(Seq term, element SV maker) for an iterable SV"""
+        it = self.unwrap_opt(it, st, node, "iterable")
         if it.k == "ref" and it.h is not None and it.h.kind == "dict":
             kd = self.S.kinds.get(it.h.name)
             kty = kd[0] if isinstance(kd, tuple) else None
